@@ -282,7 +282,7 @@ func join(hdr string, elems []string) string { return hdr + strings.Join(elems, 
 // MutOps names the mutation operators (index = operator id).
 var MutOps = []string{"byte-delete", "byte-insert", "byte-replace", "byte-swapcase", "elem-dup", "elem-drop", "elem-swap", "elem-move", "abv-other-version",
 	"abv-casevariant", "abv-truncate", "value-other", "value-lower", "value-empty", "value-doubled", "append-slash", "prepend-slash", "empty-elem", "truncate",
-	"header-variant", "nocolon", "double-colon", "append-garbage", "elem-foreign", "whitespace", "dup-far"}
+	"header-variant", "nocolon", "double-colon", "append-garbage", "elem-foreign", "whitespace", "dup-far", "lookalike"}
 
 func swapCase(c byte) byte {
 	switch {
@@ -508,6 +508,31 @@ func MutateOp(r *Rand, v *spec.Version, s string, op int) string {
 		out := append([]string{}, el[:i]...)
 		out = append(out, m.Abv+":"+r.Pick(m.Values))
 		return join(hdr, append(out, el[i:]...))
+	case "lookalike":
+		// same length, same first/last byte, one inner (or any) byte changed -- in the value or the abbreviation
+		i := pickEl()
+		k, val, _ := splitKV(el[i])
+		out := append([]string{}, el...)
+		tgt := []byte(val)
+		inVal := true
+		if len(val) < 2 || r.Chance(1, 3) {
+			tgt = []byte(k)
+			inVal = false
+		}
+		if len(tgt) == 0 {
+			return s
+		}
+		p := r.Intn(len(tgt))
+		if len(tgt) > 2 && r.Bool() {
+			p = 1 + r.Intn(len(tgt)-2)
+		}
+		tgt[p] = "abcdefghijklmnopqrstuvwxyzABCDEFGHIJKLMNOPQRSTUVWXYZ"[r.Intn(52)]
+		if inVal {
+			out[i] = k + ":" + string(tgt)
+		} else {
+			out[i] = string(tgt) + ":" + val
+		}
+		return join(hdr, out)
 	case "whitespace":
 		ws := []string{" ", "\t", "\n", "\r", "\x00", " "}[r.Intn(6)]
 		switch r.Intn(3) {
